@@ -9,6 +9,7 @@ import (
 
 	"github.com/itchio/headway/state"
 	"github.com/itchio/lake"
+	"github.com/itchio/lake/pools"
 	"github.com/itchio/lake/pools/fspool"
 	"github.com/itchio/lake/tlc"
 	"github.com/itchio/savior"
@@ -46,13 +47,23 @@ func Walk(dir string) (*tlc.Container, error) {
 	return tlc.WalkAny(dir, tlc.WalkOpts{})
 }
 
+// poolOf opens the pool over a build the way butler does: pools.New tells a directory from a single-file build
+// (and a zip).
+func poolOf(c *tlc.Container, path string) (lake.Pool, error) {
+	return pools.New(c, path)
+}
+
 // Sign computes the stand-alone signature of dir.
 func Sign(dir string) (*tlc.Container, []wsync.BlockHash, error) {
 	c, err := Walk(dir)
 	if err != nil {
 		return nil, nil, err
 	}
-	hs, err := pwr.ComputeSignature(context.Background(), c, fspool.New(c, dir), Quiet())
+	pool, err := poolOf(c, dir)
+	if err != nil {
+		return nil, nil, err
+	}
+	hs, err := pwr.ComputeSignature(context.Background(), c, pool, Quiet())
 	return c, hs, err
 }
 
@@ -82,7 +93,10 @@ func SignWith(dir string, wrap func(lake.Pool) lake.Pool) (*tlc.Container, []wsy
 	if err != nil {
 		return nil, nil, err
 	}
-	var pool lake.Pool = fspool.New(c, dir)
+	pool, err := poolOf(c, dir)
+	if err != nil {
+		return nil, nil, err
+	}
 	if wrap != nil {
 		pool = wrap(pool)
 	}
@@ -135,7 +149,10 @@ func Diff(oldDir, newDir string, comp Comp, opts *DiffOpts) (*DiffOut, error) {
 	if err != nil {
 		return nil, fmt.Errorf("walk new: %w", err)
 	}
-	var pool lake.Pool = fspool.New(sc, newDir)
+	pool, err := poolOf(sc, newDir)
+	if err != nil {
+		return nil, fmt.Errorf("open new build: %w", err)
+	}
 	if opts != nil && opts.WrapPool != nil {
 		pool = opts.WrapPool(pool)
 	}
